@@ -19,6 +19,7 @@ from vlib import log
 PRELUDE = r'''
 use core::ops::{Deref, DerefMut};
 pub fn ad<T: ?Sized>(t: &T) -> usize { t as *const T as *const u8 as usize }
+pub fn is_u8_slice<T: ?Sized + 'static>(_: &T) -> bool { core::any::TypeId::of::<T>() == core::any::TypeId::of::<[u8]>() }
 pub fn report(k: &str, rows: &[String]) { println!("OBS {{\"k\": {:?}, \"rows\": [{}]}}", k, rows.iter().map(|r| format!("{:?}", r)).collect::<Vec<_>>().join(", ")); }
 // instrumented field types for AsRef/AsMut: Fi holds a Gi; Fi's own AsRef<Fi> returns ANOTHER object
 macro_rules! fty { ($f:ident, $g:ident, $alias:ident, $other:ident) => {
@@ -78,6 +79,7 @@ impl AsMut<[u8]> for Dst { fn as_mut(&mut self) -> &mut [u8] { &mut self.0 } }
 PRELUDE = r'''
 use core::ops::{Deref, DerefMut};
 pub fn ad<T: ?Sized>(t: &T) -> usize { t as *const T as *const u8 as usize }
+pub fn is_u8_slice<T: ?Sized + 'static>(_: &T) -> bool { core::any::TypeId::of::<T>() == core::any::TypeId::of::<[u8]>() }
 pub fn report(k: &str, rows: &[String]) { println!("OBS {{\"k\": {:?}, \"rows\": [{}]}}", k, rows.iter().map(|r| format!("{:?}", r)).collect::<Vec<_>>().join(", ")); }
 ''' + DST_TYPES + asref_types() + "\npub mod tm { pub use super::{F1, F2, F3}; }\n"
 
@@ -124,16 +126,18 @@ def legacy_modules(c, named):
         mode = doc[2]
         f = member(i, named)
         others = [member(j, named) for j in range(len(fs)) if j != i]
+        # (what `*s` IS, not what it coerces to: the field itself is a Vec<u8>, the forwarded target a [u8])
+        tgt = 'rows.push(format!("target_is_slice {}", is_u8_slice(&*s)));'
         if mode == "fwd":
-            rows = [f'rows.push(format!("deref {{}}", (&*s).as_ptr() as usize == s.{f}.as_ptr() as usize));',
+            rows = [tgt, f'rows.push(format!("deref {{}}", (&*s).as_ptr() as usize == s.{f}.as_ptr() as usize));',
                     f'{{ let mut m = s.clone(); (*m)[0] = 99; rows.push(format!("deref_mut {{}} {{}}", m.{f}[0] == 99, ' +
                     (" && ".join(f"m.{o} == s.{o}" for o in others) or "true") + ')); }']
         else:
-            rows = [f'rows.push(format!("deref {{}}", ad(&*s) == ad(&s.{f})));',
+            rows = [tgt, f'rows.push(format!("deref {{}}", ad(&*s) == ad(&s.{f})));',
                     f'{{ let mut m = s.clone(); (*m).push(99); rows.push(format!("deref_mut {{}} {{}}", m.{f}.last() == Some(&99), ' +
                     (" && ".join(f"m.{o} == s.{o}" for o in others) or "true") + ')); }']
         out.append((k, f"use super::*;\n{decl}\npub fn run() {{ let s = {init}; let mut rows: Vec<String> = vec![];\n    " + "\n    ".join(rows) +
-                    f"\n    report({json.dumps(k)}, &rows); }}", ["deref true", "deref_mut true true"]))
+                    f"\n    report({json.dumps(k)}, &rows); }}", [f"target_is_slice {'true' if mode == 'fwd' else 'false'}", "deref true", "deref_mut true true"]))
     # ---------- Index / IndexMut (no forward mark)
     if "fwd" not in fs and sattr == "none":
         marks = {"sel": "#[index] #[index_mut]", "ign": "#[index(ignore)] #[index_mut(ignore)]"}
